@@ -1,7 +1,7 @@
 #!/bin/bash
 # Runs every registered check's quick command sequentially (writes evidence), records exit code and wall time.
 cd /verif
-out=build/quick_times.txt; mkdir -p build; : > $out
+out=build/quick_times_${QTAG:-a}.txt; mkdir -p build; : > $out
 for p in "$@"; do
   s=$(date +%s)
   ./check $p --tier quick > build/quick_$p.out 2> build/quick_$p.err; rc=$?
